@@ -177,7 +177,7 @@ struct Choices {
   uint32_t raw() { return p < v.size() ? v[p++] : 0; }
   int upto(int n) { return n <= 0 ? 0 : (int)(raw() % (uint32_t)(n + 1)); }   // 0..n
   int range(int a, int b) { return a + upto(b - a); }
-  bool chance(int pct) { return (int)(raw() % 100) < pct && pct > 0; }          // 0 -> false
+  bool chance(int pct) { return (int)(raw() % 100) >= 100 - pct; }               // raw 0 -> false (unless pct = 100)
   bool flip() { return raw() & 1; }
   bool exhausted() const { return p >= v.size(); }
 };
